@@ -122,5 +122,6 @@ impl Emitter {
 
 /// silence the default panic message (cases are expected to probe panics)
 pub fn quiet_panics() {
+    if std::env::var("VERIF_SHOW_PANICS").is_ok() { return; }
     std::panic::set_hook(Box::new(|_| {}));
 }
